@@ -847,6 +847,16 @@ impl Runner {
         }
     }
 
+    /// Inside the class of defect D1 every way `get` can disagree with the enumeration is one signature.
+    pub fn full_sig(site: &Site, sig: &str) -> String {
+        let pre = Self::sig_prefix(site);
+        if !pre.is_empty() && sig.starts_with("macro-site/get-") {
+            format!("{pre}macro-site/get-disagrees-with-enumeration")
+        } else {
+            format!("{pre}{sig}")
+        }
+    }
+
     /// The oracle of the `macro-sites` generator: look the site's outcome up (compile a one-site
     /// program on replay) and translate it.
     pub fn check(&self, site: &Site, cx: &mut Cx) -> Res {
@@ -894,7 +904,7 @@ impl Runner {
                 }
                 Ok(())
             }
-            SiteOutcome::Fail(sig, detail) => cx.fail(format!("{}{sig}", Self::sig_prefix(site)), format!("{detail} -- site: {}", site_source_hint(site))),
+            SiteOutcome::Fail(sig, detail) => cx.fail(Self::full_sig(site, &sig), format!("{detail} -- site: {}", site_source_hint(site))),
         }
     }
 }
